@@ -1,7 +1,10 @@
 //! VerifVM: a real MMTk VM binding instrumented for runtime monitoring.
 pub mod c08;
+pub mod c31;
+pub mod c34;
 pub mod cfg;
 pub mod obj;
+pub mod pagemon;
 pub mod prog;
 pub mod sched;
 pub mod shadow;
@@ -185,8 +188,9 @@ pub fn finish() -> ! {
         m.feed(&evs);
         let truncated = mmtk::verif::log_truncated();
         m.finish(true);
+        m.pages.finish();
         let mut reps = w.reports.lock().unwrap();
-        for r in [&m.c11, &m.c14, &m.c15, &m.c16] {
+        for r in [&m.c11, &m.c14, &m.c15, &m.c16, &m.pages.rep] {
             let dst = reps.entry(r.property.clone()).or_insert_with(|| Report::new(&r.property));
             dst.evaluations += r.evaluations;
             for k in r.keys.iter() {
